@@ -554,12 +554,26 @@ fn adapt_one<B: FA, H: ElementHasher<BaseField = B> + Send + Sync>(c: &AdaptCase
             if mf.len == 0 || mf.len + 3 > 65535 {
                 return Ok(());
             }
-            let k = 1 + c.extra.len() % 3;
             let chunk = fp.elem_bytes - 1;
-            let space = (chunk - mf.len % chunk) % chunk;
+            let t = mf.len % chunk;
+            let end = mf.off + mf.len;
+            if c.c.0 % 3 == 0 && mf.len > chunk && t != 0 {
+                // the short last chunk completed by the tail of the chunk before it: what an encoder that reuses
+                // its chunk buffer without clearing it would read anyway
+                let prev = end - t - chunk;
+                let tail: Vec<u8> = base.bytes[prev + t..prev + chunk].to_vec();
+                obs.label("meta+previous-chunk-tail");
+                let mut mutated = base.bytes.clone();
+                mutated.splice(end..end, tail.iter().copied());
+                mutated[lf.off..lf.off + 2].copy_from_slice(&((mf.len + tail.len()) as u16).to_le_bytes());
+                let verdict = judge::<B, H>(&base, &mutated, obs);
+                return count(&verdict, "context.trace_info.meta+previous-chunk-tail", obs);
+            }
+            let space = (chunk - t) % chunk;
+            // half of the time just beyond the last chunk (a further element: must be refused), else 1..3 bytes
+            let k = if c.extra.len() % 2 == 0 { space + 1 } else { 1 + (c.extra.len() / 2) % 3 };
             obs.label(if k <= space { "meta+zeros:inside-last-chunk" } else { "meta+zeros:new-chunk" });
             let mut mutated = base.bytes.clone();
-            let end = mf.off + mf.len;
             mutated.splice(end..end, std::iter::repeat(0u8).take(k));
             mutated[lf.off..lf.off + 2].copy_from_slice(&((mf.len + k) as u16).to_le_bytes());
             let verdict = judge::<B, H>(&base, &mutated, obs);
@@ -636,10 +650,10 @@ impl SubCheck for Adaptive {
         40
     }
     fn rule(&self) -> String {
-        "consistency-preserving substitutions computed from the verifier's query positions (obtained by replaying the transcript): the FRI remainder plus c times the vanishing polynomial of the queried last-layer points (whenever the number of distinct last-layer positions is below the remainder size), a GKR proof attached to a proof that does not use one, trailing bytes inside the Lagrange OOD block, other nonces (small offsets, + the field modulus, + twice the modulus, top bit), a surplus empty or filled node vector appended to a trace / constraint / FRI-layer opening with count byte and length prefix fixed up, the trace metadata extended by one to three zero bytes; non-trivial = the substitution was applicable and judged".into()
+        "consistency-preserving substitutions computed from the verifier's query positions (obtained by replaying the transcript): the FRI remainder plus c times the vanishing polynomial of the queried last-layer points (whenever the number of distinct last-layer positions is below the remainder size), a GKR proof attached to a proof that does not use one, trailing bytes inside the Lagrange OOD block, other nonces (small offsets, + the field modulus, + twice the modulus, top bit), a surplus empty or filled node vector appended to a trace / constraint / FRI-layer opening with count byte and length prefix fixed up, the trace metadata extended by one to three zero bytes or by the tail of its last full chunk; non-trivial = the substitution was applicable and judged".into()
     }
     fn required_labels(&self, _t: Tier) -> Vec<String> {
-        vec!["remainder-attack:possible".into(), "meta+zeros:inside-last-chunk".into(), "meta+zeros:new-chunk".into()]
+        vec!["remainder-attack:possible".into(), "meta+zeros:inside-last-chunk".into(), "meta+zeros:new-chunk".into(), "meta+previous-chunk-tail".into()]
     }
     fn strategy(&self, tier: Tier) -> BoxedStrategy<AdaptCase> {
         let p = GenParams { max_log_n: tier.pick(6, 8), max_grinding: 4, fixed: None, allow_aux: true, allow_degenerate: false };
